@@ -14,6 +14,9 @@ pub enum Action {
 	Reconnect(usize, usize),
 	Tick(usize),
 	AsyncOn(usize),
+	/// The node's store answers k more Persist calls synchronously and InProgress from then on (the switch the
+	/// Persist contract always allows, here in the middle of one deferred flush)
+	AsyncAfter(usize, u32),
 	/// channel_monitor_updated(node, index of channel in sorted outstanding list, update id)
 	Complete(usize, usize, u64),
 	WriteManager(usize),
@@ -66,6 +69,7 @@ pub fn encode_action(a: &Action) -> String {
 		Action::Reconnect(a, b) => format!("conn:{}-{}", a, b),
 		Action::Tick(n) => format!("tick:{}", n),
 		Action::AsyncOn(n) => format!("async:{}", n),
+		Action::AsyncAfter(n, k) => format!("asyncafter:{}:{}", n, k),
 		Action::Complete(n, c, id) => format!("done:{}:{}:{}", n, c, id),
 		Action::WriteManager(n) => format!("wm:{}", n),
 		Action::Crash(n, c) => format!("crash:{}:{}", n, c),
@@ -108,6 +112,10 @@ pub fn decode_action(s: &str) -> Option<Action> {
 		},
 		"tick" => Action::Tick(rest.parse().ok()?),
 		"async" => Action::AsyncOn(rest.parse().ok()?),
+		"asyncafter" => {
+			let v = nums(':');
+			Action::AsyncAfter(*v.get(0)? as usize, *v.get(1)? as u32)
+		},
 		"done" => {
 			let v = nums(':');
 			Action::Complete(*v.get(0)? as usize, *v.get(1)? as usize, *v.get(2)?)
@@ -215,6 +223,8 @@ pub struct Deviations {
 	pub disconnect: Option<u32>,
 	pub tick: Option<u32>,
 	pub async_persist: Option<u32>,
+	/// a deferred-mode node with several queued operations: its store turns asynchronous part-way through the next flush
+	pub async_after: Option<u32>,
 	/// issue the next operation before the protocol has quiesced
 	pub early_op: Option<u32>,
 	pub crash: Option<u32>,
@@ -248,6 +258,7 @@ impl Default for Deviations {
 			disconnect: None,
 			tick: None,
 			async_persist: None,
+			async_after: None,
 			early_op: Some(1),
 			crash: None,
 			crash_inside: None,
@@ -822,6 +833,11 @@ impl WorldSys {
 				self.async_on[*n] = true;
 				self.w.nodes[*n].persist.set_async_all(true);
 			},
+			Action::AsyncAfter(n, k) => {
+				self.async_on[*n] = true;
+				self.w.nodes[*n].persist.set_async_after(*k);
+				crate::runner::witness("store-turns-async-inside-a-deferred-flush");
+			},
 			Action::Complete(n, _ci, id) => {
 				let outs = self.w.nodes[*n].persist.outstanding();
 				if let Some((cid, _)) = outs.iter().find(|(_, i)| i == id) {
@@ -1162,6 +1178,16 @@ impl System for WorldSys {
 			for i in 0..n {
 				if !self.async_on[i] {
 					out.push((Action::AsyncOn(i), c));
+				}
+			}
+		}
+		if let Some(c) = self.dev.async_after {
+			for i in 0..n {
+				if self.w.nodes[i].deferred && !self.async_on[i] {
+					let queued = self.w.nodes[i].mon.pending_operation_count() as u32;
+					for k in 1..queued {
+						out.push((Action::AsyncAfter(i, k), c));
+					}
 				}
 			}
 		}
